@@ -101,6 +101,44 @@ def gen_scenario(rng, focus="mixed"):
     return {"actors": actors, "msgs": msgs, "ops": ops}
 
 
+def gen_supburst(rng):
+    """A supervisor whose supervision handler parks at a gate while further supervision events
+    (and messages) pile up and a stop / kill / drain arrives: the hand-over between a finishing
+    handler and the next pick."""
+    n = rng.choice([3, 3, 4])
+    gates = [2]
+    sup_script = ([("g", 1)] + [("t",)] * rng.choice([0, 1]), ("ok",))
+    actors = [{"pre": ([], ("ok",)), "ps": ([], ("ok",)), "stop": ([("t",)], ("ok",)), "sup": sup_script, "link": None}]
+    for i in range(1, n):
+        actors.append({"pre": gen_script(rng, i, n, gates, allow_fail=False, rich=False),
+                       "ps": gen_script(rng, i, n, gates, allow_fail=rng.random() < 0.2, rich=False),
+                       "stop": gen_script(rng, i, n, gates, allow_fail=False, rich=False),
+                       "sup": None, "link": 0})
+    msgs = {m: gen_script(rng, 0, n, gates, rich=False, min_msg=m) for m in (1, 2, 3, 4)}
+    ops = [("spawn", 0), ("settle",)]
+    for i in range(1, n):
+        ops.append(("spawn", i))
+        if rng.random() < 0.5:
+            ops.append(("settle",))
+    ops.append(("settle",))
+    for g in range(2, gates[0]):
+        ops.append(("open", g))
+    ops.append(("settle",))
+    # now actor 0 is (very likely) parked in its first supervision handler with more events queued
+    for _ in range(rng.choice([0, 1, 2])):
+        r = rng.random()
+        a = rng.randrange(1, n)
+        ops.append(rng.choice([("kill", a), ("stop", a, None), ("send", 0, rng.choice([1, 2]))]))
+        if rng.random() < 0.5:
+            ops.append(("settle",))
+    ops.append(rng.choice([("stop", 0, None), ("stop", 0, 10), ("kill", 0), ("drain", 0), ("stop", 0, None)]))
+    if rng.random() < 0.5:
+        ops.append(("settle",))
+    ops.append(("open", 1))
+    ops.append(("settle",))
+    return {"actors": actors, "msgs": msgs, "ops": ops}
+
+
 # ------------------------------------------------------------------ rendering
 
 def eff_line(e):
@@ -324,7 +362,10 @@ def run_loop_check(chk, oracle_fn, focus, what, accept=lambda o: o == "true"):
                 scs.append(json.load(open(os.path.join(cdir, f))))
     ncorpus = len(scs)
     for k in range(n_cases):
-        scs.append(gen_scenario(chk.rng, focus if k % 2 else "mixed"))
+        if k % 5 == 4:
+            scs.append(gen_supburst(chk.rng))
+        else:
+            scs.append(gen_scenario(chk.rng, focus if k % 2 else "mixed"))
     scs = json.loads(json.dumps(scs))  # normalise tuples to lists
     for sc in scs:
         sc["msgs"] = {int(k): v for k, v in sc["msgs"].items()}
